@@ -196,7 +196,11 @@ func checkTokenChainBySets(p *Program, r *Report) bool {
 		case advance(e):
 			n++
 		case e == last:
-			contOK, why = false, "the loop can continue without having skipped a ','"
+			if ok, w := wrapperAdvances(p, last, cursor.Block().Preds[i], cursor.Block()); ok {
+				n++
+			} else {
+				contOK, why = false, "the loop can continue without having skipped a ','"+w
+			}
 		default:
 			j, isPhi := e.(*ssa.Phi)
 			if !isPhi {
@@ -280,4 +284,64 @@ func edgeByteGuardPhi(b *ssa.BasicBlock, x ssa.Value, front bool) string {
 		}
 	}
 	return ""
+}
+
+// wrapperAdvances: the rest is result #k of a helper that runs the chain and also reports, as a boolean result #m,
+// whether it skipped a ','; the edge pred→header is taken only when that flag is true, and in the helper every
+// return whose flag can be true returns final-rest[1:] under final-rest[0] == ','.
+func wrapperAdvances(p *Program, rest ssa.Value, pred, header *ssa.BasicBlock) (bool, string) {
+	ex, ok := rest.(*ssa.Extract)
+	if !ok {
+		return false, ""
+	}
+	call, ok := ex.Tuple.(*ssa.Call)
+	if !ok {
+		return false, ""
+	}
+	g := staticCallee(call.Common())
+	if g == nil || g.Blocks == nil || g.Pkg == nil || !strings.HasPrefix(g.Pkg.Pkg.Path(), modulePath) {
+		return false, ""
+	}
+	flagIdx := -1
+	for _, gd := range EdgeGuards(pred, header) {
+		fx, ok := gd.Cond.(*ssa.Extract)
+		if ok && fx.Tuple == ex.Tuple && gd.Pol {
+			flagIdx = fx.Index
+		}
+	}
+	if flagIdx < 0 {
+		return false, ""
+	}
+	// the inner chain and its final rest
+	var li ssa.Value
+	for ai, prm := range g.Params {
+		if ai >= len(call.Common().Args) || !isStringish(prm.Type()) {
+			continue
+		}
+		if inner, l := splitChain(p, g, prm, 1); len(inner) > 0 && l != nil {
+			li = l
+		}
+	}
+	if li == nil {
+		return false, ""
+	}
+	n := 0
+	for _, ret := range Returns(g) {
+		if ex.Index >= len(ret.Results) || flagIdx >= len(ret.Results) {
+			return false, ""
+		}
+		if bv, isK := constBool(ret.Results[flagIdx]); isK && !bv {
+			continue // the loop ends after this return
+		}
+		x, ok := ret.Results[ex.Index].(*ssa.Slice)
+		if !ok {
+			return false, " (" + fnName(g) + " can report a skipped ',' without having skipped one)"
+		}
+		lo, okLo := constInt(x.Low)
+		if !(x.X == li && okLo && lo == 1 && x.High == nil && edgeByteGuardPhi(x.Block(), li, true) == ",") {
+			return false, " (" + fnName(g) + " can report a skipped ',' without having skipped one)"
+		}
+		n++
+	}
+	return n > 0, ""
 }
